@@ -103,3 +103,56 @@ V('c04-client-drops-param', 'C04', 'C04.R1',
   (OPSF, "                ClassName=ClassName,\n                LocalOnly=LocalOnly,\n                DeepInheritance=DeepInheritance,\n                IncludeQualifiers=IncludeQualifiers,\n                IncludeClassOrigin=IncludeClassOrigin,\n                PropertyList=PropertyList)\n\n            if result is None:\n                instances = []",
          "                ClassName=ClassName,\n                LocalOnly=LocalOnly,\n                IncludeQualifiers=IncludeQualifiers,\n                IncludeClassOrigin=IncludeClassOrigin,\n                PropertyList=PropertyList)\n\n            if result is None:\n                instances = []"),
   'never-sent')
+
+# ---- C15 ------------------------------------------------------------------
+V('c15-wrong-flag', 'C15', 'C15.R2',
+  (OPSF, "                        self._use_ref_path_pull_operations = False",
+         "                        self._use_ref_inst_pull_operations = False"), 'IterReferenceInstancePaths')
+V('c15-finally-cond', 'C15', 'C15.R1',
+  (OPSF, "                if pull_result is not None and not pull_result.eos:\n                    self.CloseEnumeration(pull_result.context)\n                    pull_result = None\n\n        # Alternate request if Pull not implemented. This does not allow\n        # the FilterQuery or ContinueOnError\n        assert self._use_assoc_path_pull_operations is False",
+         "                if pull_result is not None and pull_result.eos:\n                    self.CloseEnumeration(pull_result.context)\n                    pull_result = None\n\n        # Alternate request if Pull not implemented. This does not allow\n        # the FilterQuery or ContinueOnError\n        assert self._use_assoc_path_pull_operations is False"),
+  'IterAssociatorInstancePaths')
+V('c15-host-completion', 'C15', 'C15.R6',
+  (OPSF, "            if path.host is None:\n                path.host = self.host\n\n        yield from enum_rslt", "        yield from enum_rslt"),
+  'host')
+V('c15-handler-or', 'C15', 'C15.R3',
+  (OPSF, "                    if (self._use_query_pull_operations is None and\n                            ce.status_code in",
+         "                    if (self._use_query_pull_operations is None or\n                            ce.status_code in"), 'IterQueryInstances')
+V('c15-no-refusal', 'C15', 'C15.R4',
+  (OPSF, "        if ContinueOnError is not None:\n            raise ValueError('References does not support '\n                             'ContinueOnError.')\n", ""),
+  'ContinueOnError')
+V('c15-set-true-early', 'C15', 'C15.R2',
+  (OPSF, "                try:        # operation try block\n                    pull_result = self.OpenEnumerateInstancePaths(",
+         "                try:        # operation try block\n                    self._use_enum_path_pull_operations = True\n                    pull_result = self.OpenEnumerateInstancePaths("),
+  'IterEnumerateInstancePaths')
+
+# ---- C14 ------------------------------------------------------------------
+MAINF = 'pywbem_mock/_mainprovider.py'
+V('c14-zero-unset', 'C14', 'C14.R4',
+  (MAINF, "        max_obj_cnt = MaxObjectCount\n        if max_obj_cnt is None:\n            max_obj_cnt = DEFAULT_MAX_OBJECT_COUNT\n\n        if len(objs_list)",
+          "        max_obj_cnt = MaxObjectCount\n        if not max_obj_cnt:\n            max_obj_cnt = DEFAULT_MAX_OBJECT_COUNT\n\n        if len(objs_list)"),
+  'truthiness-default')
+V('c14-slice-off-by-one', 'C14', 'C14.R3',
+  (MAINF, "            del objs_list[0: max_obj_cnt]", "            del objs_list[0: max_obj_cnt - 1]"), 'slice-mismatch')
+V('c14-eos-lt', 'C14', 'C14.R3',
+  (MAINF, "        if len(objs_list) <= max_obj_cnt:", "        if len(objs_list) < max_obj_cnt:"), 'eos-predicate')
+V('c14-no-delete-on-eos', 'C14', 'C14.R1',
+  (MAINF, "            rtn_objs_list = objs_list\n            del self.enumeration_contexts[EnumerationContext]\n", "            rtn_objs_list = objs_list\n"),
+  'eos-mismatch')
+V('c14-check-after-consume', 'C14', 'C14.R2',
+  [(MAINF, "        if context_data['pull_type'] != req_type:\n            raise CIMError(\n                CIM_ERR_INVALID_ENUMERATION_CONTEXT,\n                _format(\"Invalid pull operations {0!A} does not match \"\n                        \"expected {1!A} for EnumerationContext {2!A}\",\n                        context_data['pull_type'], req_type,\n                        EnumerationContext))\n", ""),
+   (MAINF, "        # returns tuple of list of insts, eos, and context_id\n",
+           "        if context_data['pull_type'] != req_type:\n            raise CIMError(CIM_ERR_INVALID_ENUMERATION_CONTEXT, 'bad pull type')\n")],
+  'unguarded:pull-type')
+V('c14-wrong-pull-type', 'C14', 'C14.R6',
+  (MAINF, "        return self._open_response(namespace, result,\n                                   'PullInstancePaths',\n                                   OperationTimeout,\n                                   MaxObjectCount,\n                                   ContinueOnError)\n\n    def OpenEnumerateInstances(",
+          "        return self._open_response(namespace, result,\n                                   'PullInstancesWithPath',\n                                   OperationTimeout,\n                                   MaxObjectCount,\n                                   ContinueOnError)\n\n    def OpenEnumerateInstances("),
+  'OpenEnumerateInstancePaths')
+V('c14-client-no-validate', 'C14', 'C14.R5',
+  (OPSF, "            _validate_MaxObjectCount_OpenPull(MaxObjectCount)\n            _validate_context(context)\n            namespace = context[1]\n\n            result = self._imethodcall(\n                method_name,\n                namespace=namespace,\n                EnumerationContext=context[0],\n                MaxObjectCount=MaxObjectCount,\n                has_out_params=True)\n\n            result_tuple = pull_path_result_tuple(",
+         "            _validate_MaxObjectCount_OpenPull(MaxObjectCount)\n            namespace = context[1]\n\n            result = self._imethodcall(\n                method_name,\n                namespace=namespace,\n                EnumerationContext=context[0],\n                MaxObjectCount=MaxObjectCount,\n                has_out_params=True)\n\n            result_tuple = pull_path_result_tuple("),
+  '_validate_context')
+V('c14-foreign-writer', 'C14', 'C14.R1',
+  (MAINF, "        self._validate_pull_operations_enabled()\n        return self._pull_response('PullInstancePaths',",
+          "        self._validate_pull_operations_enabled()\n        self.enumeration_contexts.pop(EnumerationContext + 'x', None)\n        return self._pull_response('PullInstancePaths',"),
+  'foreign-writer')
